@@ -31,6 +31,9 @@ def run(tier: str) -> int:
     chk.transitions += tmp.transitions
     lrecs = pmap(drv16.exec_hist, lscn)
     recs += [drv.from_list_record(x) for x in lrecs if x["pre"] or x["op"] in ("len",)]
+    srecs = chk16.suite_traces(tier, "c14")
+    chk.extra["records_from_repository_test_suite"] = len(srecs)
+    recs += [drv.from_list_record(x) for x in srecs]
     rejects, consumed, wall = validate_traces("FrameTrace", "FrameTrace", recs, tag=f"c14-{tier}")
     chk.add_traces(recs, rejects)
     chk.nontrivial = len({x["cls"] + str(x.get("seq", ""))[:200] for x in recs})
